@@ -304,9 +304,17 @@ class AsyncTunnelHTTPConnection(AsyncConnectionInterface):
                     headers=connect_headers,
                     extensions=connect_extensions,
                 )
-                connect_response = await self._connection.handle_async_request(
-                    connect_request
-                )
+                try:
+                    connect_response = await self._connection.handle_async_request(
+                        connect_request
+                    )
+                except BaseException as exc:
+                    # The tunnel is set up with the first request on the proxy
+                    # connection, or not at all. If that request fails, however
+                    # it fails, the connection is of no use to anybody.
+                    with AsyncShieldCancellation():
+                        await self._connection.aclose()
+                    raise exc
 
                 if connect_response.status < 200 or connect_response.status > 299:
                     reason_bytes = connect_response.extensions.get("reason_phrase", b"")
